@@ -15,6 +15,7 @@ atom types, nonbond_params and exclusions.
 """
 import ast
 import math
+from fractions import Fraction
 import os
 import tempfile
 
@@ -105,6 +106,15 @@ def _tie(d, cut):
     return d == cut or abs(d - cut) <= TIE * max(abs(d), abs(cut))
 
 
+def _exactly_on(p, q, cut):
+    """True if the two points differ along one axis only and that difference is the cut-off exactly, as real numbers.  The
+    floating-point subtraction is then exact as well and the norm of (d, 0, 0) is d, so the code under test sees the very
+    same number: a strict comparison has to reject the pair, no tolerance applies."""
+    diffs = [Fraction(a) - Fraction(b) for a, b in zip(p, q)]
+    nonzero = [d for d in diffs if d != 0]
+    return len(nonzero) == 1 and abs(nonzero[0]) == Fraction(cut)
+
+
 def _residue_distances(n, res_of, edges):
     """Own residue graph (residues joined when any of their particles are
     joined by an edge) and breadth-first distances from every residue.
@@ -150,10 +160,17 @@ def _case(draw, tier, hazard=False):
         left -= size
     sizes.append(left)
     chains = draw(st.lists(st.sampled_from(CHAINS), min_size=nch, max_size=nch, unique=True))
-    short = draw(st.one_of(st.sampled_from([0.3, 0.3, 0.25, 0.4, 0.5, 0.3, 0.35, 0.45, 0.0, 0.1]), st.floats(0.05, 0.6)))
-    long_ = draw(st.one_of(st.just(1.1), st.floats(0.2, 1.0).map(lambda x: short + x)))
-    if not long_ > short:
-        long_ = short + 0.5
+    # on_grid: cut-offs and free positions are multiples of 1/512, so that a bead can sit at a distance that equals a cut-off
+    # exactly (in real numbers and in floating point alike): "strictly between" then decides, not a tolerance
+    on_grid = draw(st.sampled_from([False, False, True]))
+    if on_grid:
+        short = draw(st.sampled_from([0.25, 0.5, 0.375, 0.125, 0.3125]))
+        long_ = short + draw(st.sampled_from([0.5, 0.75, 1.0, 0.625]))
+    else:
+        short = draw(st.one_of(st.sampled_from([0.3, 0.3, 0.25, 0.4, 0.5, 0.3, 0.35, 0.45, 0.0, 0.1]), st.floats(0.05, 0.6)))
+        long_ = draw(st.one_of(st.just(1.1), st.floats(0.2, 1.0).map(lambda x: short + x)))
+        if not long_ > short:
+            long_ = short + 0.5
     eps = draw(st.one_of(st.sampled_from([9.414, 12.0, 1.0]), st.floats(0.1, 50.0)))
     res_dist = draw(st.sampled_from([0, 1, 1, 2, 2, 3, 3, 3, 4, 5]))
     anchor = draw(st.sampled_from(['BB', 'BB', 'BB', 'CA', 'B1']))
@@ -189,7 +206,10 @@ def _case(draw, tier, hazard=False):
     key = draw(st.sampled_from([0, 1, 1, 5]))
     keysteps = fixed(st.sampled_from([1] * 9 + [2, 3]), nres)
     L = 0.8 * long_
-    free = fixed(st.floats(-L, L, allow_nan=False, allow_infinity=False), 3 * nres)
+    if on_grid:
+        free = [v / 512.0 for v in fixed(st.integers(-int(L * 512), int(L * 512)), 3 * nres)]
+    else:
+        free = fixed(st.floats(-L, L, allow_nan=False, allow_infinity=False), 3 * nres)
     cats = ['short-', 'short+', 'long-', 'long+', 'short=', 'long=', 'mid', 'mid', 'mid', 'mid', 'below', 'below',
             'below', 'above', 'above']
     # per residue: (anchored?, to previous?, target, category, fraction, direction)
@@ -222,8 +242,10 @@ def _case(draw, tier, hazard=False):
                 dist = short * frac
             else:
                 dist = long_ * (1 + frac)
+            if on_grid and cat in ('short=', 'long=') and sorted(map(abs, general)) != [0, 0, 1]:
+                general = (0, 0, 1)
             direction = _unit(general)
-            pos = [bbpos[rj][k] + dist * direction[k] for k in range(3)]
+            pos = [bbpos[rj][k] + dist * direction[k] if direction[k] else bbpos[rj][k] for k in range(3)]
             anchored.append((rj, ri))
         else:
             pos = free[3 * ri:3 * ri + 3]
@@ -498,11 +520,15 @@ def _reference(case):
             fails.append('one-directional')
         if graph is not None and graph <= res_dist:
             fails.append('graph')
-        if _tie(d, short):
+        if _exactly_on(bbpos[pair[0]], bbpos[pair[1]], short):
+            fails.append('short-exactly')
+        elif _tie(d, short):
             tie = True
         elif not d > short:
             fails.append('short')
-        if _tie(d, long_):
+        if _exactly_on(bbpos[pair[0]], bbpos[pair[1]], long_):
+            fails.append('long-exactly')
+        elif _tie(d, long_):
             tie = True
         elif not d < long_:
             fails.append('long')
@@ -738,6 +764,8 @@ def _run(case):
         classes.append('near-cutoff-accepted')
     if any(info['state'] == 'no' and info['fails'] in (['short'], ['long']) and near(info) for info in verdict.values()):
         classes.append('near-cutoff-rejected')
+    if any(info['fails'] in (['short-exactly'], ['long-exactly']) for info in verdict.values()):
+        classes.append('exactly-on-cutoff-rejected')
     all_filters = {'accepted', 'one-directional', 'absent', 'graph', 'short', 'long'} <= sole
     if all_filters:
         classes.append('all-filters')
